@@ -60,7 +60,9 @@ Family "multi" (bounded/c07_multi.py, shared with C06): SEVERAL dependent method
 share prefixes, replacement at every level with nested values equal / different, sub-object classes with
 VALUE equality (__eq__/__hash__) whose siblings are equal-valued when the dependencies are bound or
 re-bound (operation eqs); the calls of EVERY method are compared with the values reached through its own
-paths.
+paths.  The same module adds RAISING methods to the configurations with several methods (arm[mj]:a ; c1 for every
+method j: everything is checked AFTER the failure) and class hierarchies in which a plain non-Parameterized mixin
+re-declares the watching method with a dependency through another sub-object, in every MRO position (family mro).
 
 Initial states: all slots attached ('full'), all empty ('empty'), and 'hole:<slot>' (everything
 attached except the sub-tree at <slot>, which is None) for every slot below the first level.
@@ -213,7 +215,8 @@ class Cfg:
 
 def op_str(op):
     if op[0] == 'arm':
-        return 'arm:' + op_str(op[1])
+        # (family "multi": ('arm', op, j) = method number j raises)
+        return ('arm:' if len(op) < 3 else 'arm[m%d]:' % op[2]) + op_str(op[1])
     if op[0] == 'bat':
         return '%s[%s](%s)' % (op[1], op[2] or 'top', '+'.join(op_str(o) for o in op[3]))
     return '%s(%s)' % (op[0], ','.join(str(x) for x in op[1:]))
@@ -1014,7 +1017,11 @@ def _run(tier, seed):
               "sub-object classes with identity / VALUE equality (__eq__/__hash__; siblings equal-valued when the "
               "dependencies are bound, eqs: a slot replaced by an object equal to the one at another slot) x "
               "replacement at every level with nested values equal / different: calls of EVERY method vs the values "
-              "reached through its own paths. "
+              "reached through its own paths; with several methods additionally arm[mj]:a ; c1 -- EVERY method j in turn "
+              "raises during an operation that must call it, all methods and all watcher tables are checked AFTER the "
+              "failure; family mro: a plain non-Parameterized mixin re-declares the watching method with a dependency "
+              "through another sub-object, class T combines it with the Parameterized declaration in 7 MRO positions, "
+              "oracle = dependencies of the definition attribute lookup finds (mirror of plain classes). "
               "A case = (dependency set, initial state, history of maximal "
               "length); all shorter histories are its prefixes and are checked step by step"
               % len(CONFIGS)),
